@@ -1,4 +1,5 @@
 import Cx.Model.Fast
+import Cx.Spec.ReRef
 /-
   Cx.Spec.Fast — what the fast-path searchers are supposed to compute: leftmost-first (Perl / Go `regexp`) semantics of
   the regex fragment each of them implements, stated directly on bytes (no NFA).
@@ -205,27 +206,6 @@ def AnchoredFrag (re : Re) (info : AnchoredLiteralInfo) : Prop :=
 def wildcardDotNL (re : Re) : Bool :=
   re.sub.any fun w => isGreedyWildcard w && (match w.sub with | [x] => decide (x.op = .anyChar) | _ => false)
 
-/-- the two kinds of alternation branch `BranchDispatcher` has a real matcher for -/
-inductive Branch
-  | lit (bs : List Nat)
-  | clsPlus (mem : Nat → Bool)
-
-namespace Branch
-/-- `x` can be the first byte of a match of the branch -/
-def first : Branch → Nat → Prop
-  | lit bs, x => bs.head? = some x
-  | clsPlus mem, x => mem x = true
-
-/-- length of the (unique, greedy) match of the branch at offset 0 -/
-def matchLen (h : Bytes) : Branch → Option Nat
-  | lit bs => if bs.length ≤ h.size ∧ h.toList.take bs.length = bs then some bs.length else none
-  | clsPlus mem => if 1 ≤ runLen mem h 0 then some (runLen mem h 0) else none
-end Branch
-
-/-- leftmost-first semantics of `\\A(?:b0|b1|…)`: the first branch (in order) that matches at 0 -/
-def altFind (bs : List Branch) (h : Bytes) : Option (Nat × Nat) :=
-  (bs.findSome? (Branch.matchLen h)).map fun e => (0, e)
-
 /-- the sub-language on which `ExtractFirstBytes` is a sound filter: case-sensitive literals starting with an ASCII
     rune, classes of ASCII runes only, `.`, captures, concatenations (after leading `^`/`\\A`), alternations, `+`,
     `{n,…}` with `n ≥ 1` — in particular NO zero-width alternative or factor in first position.
@@ -248,46 +228,30 @@ def fbFrag : Nat → Re → Bool
     | .repeat_ => decide (re.min > 0) && (match re.sub with | [x] => fbFrag fuel x | _ => false)
     | _ => false
 
-/-- the alternation branches `BranchDispatcher` really implements: a case-sensitive ASCII literal or a greedy `cls+`
-    over ASCII, optionally wrapped in one capture group -/
-def branchCore (x : Re) : Re := if x.op = .capture then (match x.sub with | [y] => y | _ => x) else x
+/-! ### BranchDispatcher
 
-def isLitBranch (y : Re) : Bool :=
-  decide (y.op = .literal) && !y.foldCase && !y.rune.isEmpty && y.rune.all fun r => decide (r ≤ 127)
+  The rewritten dispatcher is exact on EVERY pattern `IsBranchDispatchPattern` accepts, with respect to the reference
+  semantics `Ref.refFind` of the whole pattern `\A(b1|…|bk)`; there is no fragment predicate any more.  Two side conditions remain,
+  neither of which restricts the dispatcher:
+  * `FoldSound hasFold`: the parameter standing for `unicode.SimpleFold(r) != r` is `true` at least on the runes the
+    reference matcher folds (`Ref.foldEq` folds the ASCII letters only, see Cx.Spec.ReRef).  The dispatcher rejects every
+    `FoldCase` literal containing a rune with `hasFold r = true`; on the remaining runes case folding is the identity, so the
+    ASCII-only folding of the reference matcher is never exercised by a literal the dispatcher accepted.
+  * `RefDepthOK re`: the AST is at most 32 levels deep — the depth to which `Ref.fuelFor` measures a pattern.  This is a
+    limit of the REFERENCE matcher (below that depth it may run out of fuel and answer `none`), not of the dispatcher:
+    `unwrapCaptures` strips any number of capture groups.  (`branchDispatch_depth_needed` in Cx.Proofs.FastCex.) -/
 
-def isClsPlusBranch (y : Re) : Bool :=
-  decide (y.op = .plus) && !y.nonGreedy &&
-    (match y.sub with
-     | [cc] => decide (cc.op = .charClass) && (pairs cc.rune).all fun p => decide (p.2 ≤ 127)
-     | _ => false)
+/-- every node of the AST lies at depth `< n` (root = depth 0) -/
+def depthLe : Nat → Re → Bool
+  | 0, _ => false
+  | n+1, re => re.sub.all (depthLe n)
 
-def isBDBranch (x : Re) : Bool :=
-  (!decide (x.op = .capture) || (match x.sub with | [_] => true | _ => false)) &&
-  (isLitBranch (branchCore x) || isClsPlusBranch (branchCore x))
+/-- the pattern is within the depth `Ref.fuelFor` accounts for -/
+def RefDepthOK (re : Re) : Prop := depthLe 32 re = true
 
-/-- its semantic reading (classes as byte sets) -/
-def branchOf (x : Re) : Branch :=
-  let y := branchCore x
-  if y.op = .literal then .lit y.rune
-  else .clsPlus (tableOfRangesClamped (match y.sub with | [cc] => pairs cc.rune | _ => [])).mem
+instance (re : Re) : Decidable (RefDepthOK re) := by unfold RefDepthOK; exact inferInstance
 
-/-- the alternation node of `^(…|…)` / `^(?:…|…)` -/
-def bdAlt (alt : Re) : Re := if alt.op = .capture then (match alt.sub with | [y] => y | _ => alt) else alt
-
-/-- branches of a pattern of the exactly-handled fragment -/
-def bdBranches (re : Re) : List Re :=
-  match re.sub with
-  | [_, alt] => (bdAlt alt).sub
-  | _ => []
-
-/-- **the fragment on which `UseBranchDispatch` is exact**: `\A(b1|…|bk)` or `\A(?:b1|…|bk)` and NOTHING else, every
-    branch a case-sensitive ASCII literal or a greedy `cls+` over ASCII (optionally in a capture group). -/
-def bdFrag (re : Re) : Bool :=
-  decide (re.op = .concat) &&
-  (match re.sub with
-   | [a, alt] =>
-     decide (a.op = .beginText) && (decide (alt.op = .alternate) || decide (alt.op = .capture)) &&
-     decide ((bdAlt alt).op = .alternate) && (bdAlt alt).sub.all isBDBranch
-   | _ => false)
+/-- the `hasFold` parameter covers (at least) the case folding the reference matcher implements -/
+def FoldSound (hasFold : Nat → Bool) : Prop := ∀ r, Ref.isAsciiLetter r = true → hasFold r = true
 
 end Cx.Fast
